@@ -348,9 +348,18 @@ def _planner_part(ck, binary, tier):
     ck.set("per_planner", per)
     ck.set("reports_rejected", nrej)
     ck.set("evaluations", len(events))
-    ck.set("distinct_nontrivial", len({(e["planner"], e["system"], e["layout"], e["status"]) for e in events.values()}))
-    ck.set("rule", "planner x system x layout x duration range x step size x directed-sampler k x budget x seed matrix"
-                   + (", seeded stratified sample (10 per planner x system x layout)" if tier == "quick" else ", full"))
+    # non-trivial: the run added a path with at least one control segment (the oracle had something to
+    # replay); distinct: by planner, system, step size and the replayed path itself
+    nontrivial = {vlib.digest([e["planner"], e["system"], e["stepMicro"], e["obst"],
+                               [[q["nStates"], q["steps"], q["lastDist"], q["cells"]] for q in e["paths"]]])
+                  for e in events.values() if any(q["nControls"] >= 1 for q in e["paths"])}
+    ck.set("distinct_nontrivial", len(nontrivial))
+    ck.set("rule", "evaluations = planner runs of the planner x system x layout x duration range x step size x "
+                   "directed-sampler k x budget x seed matrix"
+                   + (", seeded stratified sample (10 per planner x system x layout)" if tier == "quick" else ", full")
+                   + "; non-trivial = the run added a path with >= 1 control segment, distinct by planner, system, "
+                     "step size, map and the replayed path (state count, step count, end distance, cell walk)")
+    ck.set("propagation_exhaustive", True)
     missing = []
     for pl in PLANNERS:
         p = per.get(pl, {})
